@@ -48,7 +48,8 @@ FE_VARIANTS = [{'filter_kwargs': {'n_cycles': 4}, 'boundary': 2}, {'filter_kwarg
 
 # the burst options the user shares (dictionary 2): the plain ones, or with a nested filter dictionary and a minimum burst duration
 BK_VARIANTS = [{'amp_threshes': (1, 2), 'fs': FS, 'f_range': FR},
-               {'amp_threshes': (1, 2), 'fs': FS, 'f_range': FR, 'filter_kwargs': {'n_cycles': 4}, 'min_burst_duration': 0.25}]
+               {'amp_threshes': (1, 2), 'fs': FS, 'f_range': FR, 'filter_kwargs': {'n_cycles': 4}, 'min_burst_duration': 0.25},
+               {}]          # ... or an EMPTY dictionary object (every burst option at its default): it must stay empty
 
 
 def snap_heap(D, fe_literal=FE_VARIANTS[0], bk_literal=BK_VARIANTS[0]):
@@ -117,7 +118,7 @@ def replay(behaviour, shorthand=None):
     D = fresh_dicts()                    # the user's dictionaries (identity persists through the session)
     fe_literal = FE_VARIANTS[sum(3 * a['o'] + a['s'] + a['v'] + len(a.get('f', '')) for a in behaviour) % 4]
     D[4] = copy.deepcopy(fe_literal)
-    bk_literal = BK_VARIANTS[sum(a['o'] + 2 * a['s'] + len(a.get('f', '')) for a in behaviour) % 2]
+    bk_literal = BK_VARIANTS[sum(a['o'] + 2 * a['s'] + len(a.get('f', '')) for a in behaviour) % 3]
     D[2] = copy.deepcopy(bk_literal)
     if shorthand:
         for r in (1, 3, 5, 6):
@@ -274,7 +275,7 @@ def replay(behaviour, shorthand=None):
                         elif f == 'compute_features_default_options':
                             res = compute_features(sig, FS, FR, burst_method=m, burst_kwargs=D[2], threshold_kwargs=D[tk])
                         elif f in ('compute_burst_features', 'compute_burst_features_inverted_flanks'):
-                            res = compute_burst_features(tab, sig, burst_method=m, burst_kwargs=D[2])
+                            res = compute_burst_features(tab, sig, burst_method=m, burst_kwargs=D[2] if D[2] or m == 'cycles' else {'fs': FS, 'f_range': FR})
                         elif f == 'limit_df_keeping_all_cycles':
                             res = limit_df(tab, FS, start=1.0 / FS, stop=None)
                         elif f in ('recompute_edges', 'recompute_edges_no_burst'):
